@@ -350,4 +350,296 @@ theorem phi_pop (g : Graph) (s s' : State) (w next : Nat)
     (allKeys g) _ hD hk
   omega
 
+/-! ## registers (the first four lemmas are copies of those of `TravReady.lean`, which cannot be imported here) -/
+
+theorem mem_regWorkers_some (r : Reg) (c v : Nat) : v ∈ regWorkers r (some c) ↔ ∃ n, ((c, v), n) ∈ r := by
+  unfold regWorkers
+  simp only [List.mem_map, List.mem_filter, beq_iff_eq]
+  constructor
+  · rintro ⟨⟨⟨a, b⟩, n⟩, ⟨hm, ha⟩, hb⟩
+    simp only at ha hb
+    subst ha hb
+    exact ⟨n, hm⟩
+  · rintro ⟨n, hm⟩
+    exact ⟨((c, v), n), ⟨hm, rfl⟩, rfl⟩
+
+theorem exists_mem_regAdd (r : Reg) (k k' : Nat × Nat) :
+    (∃ n, (k', n) ∈ regAdd r k) ↔ (∃ n, (k', n) ∈ r) ∨ k' = k := by
+  induction r with
+  | nil =>
+    simp only [regAdd, List.mem_singleton, Prod.mk.injEq, List.not_mem_nil, exists_false, false_or]
+    constructor
+    · rintro ⟨n, h, _⟩; exact h
+    · intro h; exact ⟨1, h, rfl⟩
+  | cons e r ih =>
+    obtain ⟨k0, c0⟩ := e
+    unfold regAdd
+    by_cases h : k0 = k
+    · subst h
+      simp only [BEq.rfl, if_true, List.mem_cons, Prod.mk.injEq]
+      constructor
+      · rintro ⟨n, ⟨h1, _⟩ | h1⟩
+        · exact Or.inr h1
+        · exact Or.inl ⟨n, Or.inr h1⟩
+      · rintro (⟨n, ⟨h1, h2⟩ | h1⟩ | h1)
+        · exact ⟨c0 + 1, Or.inl ⟨h1, rfl⟩⟩
+        · exact ⟨n, Or.inr h1⟩
+        · exact ⟨c0 + 1, Or.inl ⟨h1, rfl⟩⟩
+    · have hb : (k0 == k) = false := by simpa using h
+      simp only [hb, Bool.false_eq_true, if_false, List.mem_cons, Prod.mk.injEq]
+      constructor
+      · rintro ⟨n, ⟨h1, h2⟩ | h1⟩
+        · exact Or.inl ⟨n, Or.inl ⟨h1, h2⟩⟩
+        · rcases ih.mp ⟨n, h1⟩ with ⟨m, hm⟩ | hk
+          · exact Or.inl ⟨m, Or.inr hm⟩
+          · exact Or.inr hk
+      · rintro (⟨n, ⟨h1, h2⟩ | h1⟩ | h1)
+        · exact ⟨n, Or.inl ⟨h1, h2⟩⟩
+        · obtain ⟨m, hm⟩ := ih.mpr (Or.inl ⟨n, h1⟩)
+          exact ⟨m, Or.inr hm⟩
+        · obtain ⟨m, hm⟩ := ih.mpr (Or.inr h1)
+          exact ⟨m, Or.inr hm⟩
+
+theorem mem_regWorkers_regAdd (r : Reg) (c0 w0 c v : Nat) :
+    v ∈ regWorkers (regAdd r (c0, w0)) (some c) ↔ v ∈ regWorkers r (some c) ∨ (v = w0 ∧ c = c0) := by
+  rw [mem_regWorkers_some, mem_regWorkers_some, exists_mem_regAdd]
+  simp only [Prod.mk.injEq]
+  constructor
+  · rintro (h | ⟨h1, h2⟩)
+    · exact Or.inl h
+    · exact Or.inr ⟨h2, h1⟩
+  · rintro (h | ⟨h1, h2⟩)
+    · exact Or.inl h
+    · exact Or.inr ⟨h2, h1⟩
+
+theorem cr_setCr_cases (s : State) (c : Nat) (f : ClassRegs → ClassRegs) (c' : Nat) :
+    (s.setCr c f).cr c' = s.cr c' ∨ (c' = c ∧ (s.setCr c f).cr c' = f (s.cr c')) := by
+  unfold State.setCr State.cr
+  simp only [List.getD_eq_getElem?_getD, List.getElem?_modify]
+  by_cases h : c = c'
+  · subst h
+    cases h' : s.regs[c]? with
+    | none => left; simp
+    | some d => right; simp
+  · left
+    cases h' : s.regs[c']? with
+    | none => simp
+    | some d => simp [h]
+
+theorem cr_setCr_eq (s : State) (c : Nat) (f : ClassRegs → ClassRegs) (h : c < s.regs.length) :
+    (s.setCr c f).cr c = f (s.cr c) := by
+  unfold State.setCr State.cr
+  simp only [List.getD_eq_getElem?_getD, List.getElem?_modify]
+  have : s.regs[c]? = some s.regs[c] := List.getElem?_eq_getElem h
+  simp [this]
+
+theorem dropped_of_regs (s s' : State) (h : s'.regs = s.regs) (w : Nat) (k : Key) : dropped s' w k = dropped s w k := by
+  unfold dropped State.cr; rw [h]
+
+/-- a change of the pick registers leaves the dropped edges alone -/
+theorem dropped_setCr_picks (s : State) (c : Nat) (f : ClassRegs → ClassRegs)
+    (hf : ∀ r, (f r).droppedSetup = r.droppedSetup ∧ (f r).droppedCleanup = r.droppedCleanup) (w : Nat) (k : Key) :
+    dropped (s.setCr c f) w k = dropped s w k := by
+  unfold dropped
+  rcases cr_setCr_cases s c f k.2.1 with h | ⟨_, h⟩
+  · rw [h]
+  · rw [h, (hf _).1, (hf _).2]
+
+/-- one more entry in a dropped register: nothing gets undropped -/
+theorem dropped_setCr_mono (s : State) (c : Nat) (f : ClassRegs → ClassRegs)
+    (hf : ∀ r, ((f r).droppedSetup = r.droppedSetup ∨ ∃ k, (f r).droppedSetup = regAdd r.droppedSetup k) ∧
+      ((f r).droppedCleanup = r.droppedCleanup ∨ ∃ k, (f r).droppedCleanup = regAdd r.droppedCleanup k))
+    (w : Nat) (k : Key) (h : dropped s w k = true) : dropped (s.setCr c f) w k = true := by
+  unfold dropped at h ⊢
+  rcases cr_setCr_cases s c f k.2.1 with h1 | ⟨_, h1⟩
+  · rw [h1]; exact h
+  · rw [h1]
+    cases hk : k.1
+    · simp only [hk, Bool.false_eq_true, if_false] at h ⊢
+      rcases (hf (s.cr k.2.1)).2 with h2 | ⟨⟨c0, w0⟩, h2⟩
+      · rw [h2]; exact h
+      · rw [h2]
+        simp only [List.contains_iff_mem] at h ⊢
+        exact (mem_regWorkers_regAdd _ c0 w0 _ _).mpr (Or.inl h)
+    · simp only [hk, if_true] at h ⊢
+      rcases (hf (s.cr k.2.1)).1 with h2 | ⟨⟨c0, w0⟩, h2⟩
+      · rw [h2]; exact h
+      · rw [h2]
+        simp only [List.contains_iff_mem] at h ⊢
+        exact (mem_regWorkers_regAdd _ c0 w0 _ _).mpr (Or.inl h)
+
+theorem dropped_dropParent_mono (g : Graph) (s : State) (child parent v w : Nat) (k : Key) (h : dropped s w k = true) :
+    dropped (dropParent g s child parent v) w k = true := by
+  unfold dropParent
+  exact dropped_setCr_mono s (g.node child).cls
+    (fun r => { r with droppedSetup := regAdd r.droppedSetup ((g.node parent).cls, v) })
+    (fun r => ⟨Or.inr ⟨_, rfl⟩, Or.inl rfl⟩) w k h
+
+theorem dropped_dropChild_mono (g : Graph) (s : State) (parent child v w : Nat) (k : Key) (h : dropped s w k = true) :
+    dropped (dropChild g s parent child v) w k = true := by
+  unfold dropChild
+  exact dropped_setCr_mono s (g.node parent).cls
+    (fun r => { r with droppedCleanup := regAdd r.droppedCleanup ((g.node child).cls, v) })
+    (fun r => ⟨Or.inl rfl, Or.inr ⟨_, rfl⟩⟩) w k h
+
+theorem dropped_dropParent_key (g : Graph) (s : State) (child parent w : Nat) (hc : (g.node child).cls < s.regs.length) :
+    dropped (dropParent g s child parent w) w (true, (g.node child).cls, (g.node parent).cls) = true := by
+  unfold dropParent dropped
+  simp only [if_true]
+  rw [cr_setCr_eq s _ _ hc]
+  simp only [List.contains_iff_mem]
+  exact (mem_regWorkers_regAdd _ _ _ _ _).mpr (Or.inr ⟨rfl, rfl⟩)
+
+theorem dropped_dropChild_key (g : Graph) (s : State) (parent child w : Nat) (hc : (g.node parent).cls < s.regs.length) :
+    dropped (dropChild g s parent child w) w (false, (g.node parent).cls, (g.node child).cls) = true := by
+  unfold dropChild dropped
+  simp only [Bool.false_eq_true, if_false]
+  rw [cr_setCr_eq s _ _ hc]
+  simp only [List.contains_iff_mem]
+  exact (mem_regWorkers_regAdd _ _ _ _ _).mpr (Or.inr ⟨rfl, rfl⟩)
+
+theorem regs_length_setCr (s : State) (c : Nat) (f : ClassRegs → ClassRegs) : (s.setCr c f).regs.length = s.regs.length := by
+  simp [State.setCr]
+
+theorem regs_length_dropChildren (g : Graph) (next w : Nat) (l : List (Nat × List String)) (s : State) :
+    (l.foldl (fun s (p, _) => dropChild g s p next w) s).regs.length = s.regs.length := by
+  induction l generalizing s with
+  | nil => rfl
+  | cons a r ih => simp only [List.foldl_cons]; rw [ih]; exact regs_length_setCr _ _ _
+
+theorem dropped_dropChildren_mono (g : Graph) (next v w : Nat) (k : Key) (l : List (Nat × List String)) (s : State)
+    (h : dropped s w k = true) : dropped (l.foldl (fun s (p, _) => dropChild g s p next v) s) w k = true := by
+  induction l generalizing s with
+  | nil => exact h
+  | cons a r ih => simp only [List.foldl_cons]; exact ih _ (dropped_dropChild_mono g s a.1 next v w k h)
+
+/-- after the drops of `reverse`, the child is dropped from every parent whose class has a register -/
+theorem dropped_dropChildren_key (g : Graph) (next w p : Nat) (l : List (Nat × List String)) (s : State)
+    (hp : p ∈ l.map (·.1)) (hc : (g.node p).cls < s.regs.length) :
+    dropped (l.foldl (fun s (p, _) => dropChild g s p next w) s) w (false, (g.node p).cls, (g.node next).cls) = true := by
+  induction l generalizing s with
+  | nil => simp at hp
+  | cons a r ih =>
+    simp only [List.foldl_cons]
+    simp only [List.map_cons, List.mem_cons] at hp
+    rcases hp with h | h
+    · apply dropped_dropChildren_mono
+      rw [h]
+      exact dropped_dropChild_key g s a.1 next w (by rw [← h]; exact hc)
+    · exact ih _ h (by unfold dropChild; rw [regs_length_setCr]; exact hc)
+
+/-! ## frames -/
+
+/-- a piece of a step that changes dynamic node records and the store only -/
+structure Fr (s s' : State) : Prop where
+  workers : s'.workers = s.workers
+  regs : s'.regs = s.regs
+  hidden : s'.hidden = s.hidden
+  incompatible : s'.incompatible = s.incompatible
+  nodesLen : s'.nodes.length = s.nodes.length
+
+theorem Fr.refl (s : State) : Fr s s := ⟨rfl, rfl, rfl, rfl, rfl⟩
+
+theorem Fr.trans {s s1 s2 : State} (a : Fr s s1) (b : Fr s1 s2) : Fr s s2 :=
+  ⟨b.workers.trans a.workers, b.regs.trans a.regs, b.hidden.trans a.hidden, b.incompatible.trans a.incompatible,
+   b.nodesLen.trans a.nodesLen⟩
+
+theorem Fr.wd {s s' : State} (a : Fr s s') (v : Nat) : s'.wd v = s.wd v := by
+  unfold State.wd; rw [a.workers]
+
+theorem Fr.cr {s s' : State} (a : Fr s s') (c : Nat) : s'.cr c = s.cr c := by
+  unfold State.cr; rw [a.regs]
+
+theorem fr_setNd (s : State) (m : Nat) (f : NodeD → NodeD) : Fr s (s.setNd m f) :=
+  ⟨rfl, rfl, rfl, rfl, nodes_length_setNd s m f⟩
+
+theorem fr_foldl {β} (f : State → β → State) (h : ∀ s b, Fr s (f s b)) (l : List β) (s : State) : Fr s (l.foldl f s) := by
+  induction l generalizing s with
+  | nil => exact Fr.refl s
+  | cons a r ih => simp only [List.foldl_cons]; exact (h s a).trans (ih _)
+
+theorem fr_pullLocations (g : Graph) (s : State) (n : Nat) : Fr s (pullLocations g s n) := by
+  unfold pullLocations
+  split
+  · exact Fr.refl s
+  · apply fr_foldl
+    rintro s ⟨p, vms⟩
+    apply fr_foldl
+    intro s loc
+    apply fr_foldl
+    intro s vm
+    exact fr_setNd s n _
+
+theorem fr_runDecision (g : Graph) (s : State) (n v : Nat) (b : Bool) (s1 : State) (e1 : List Event)
+    (h : runDecision g s n v = .ok (b, s1, e1)) : Fr s s1 := by
+  rcases runDecision_state g s n v b s1 e1 h with h | h
+  · rw [h]; exact Fr.refl s
+  · rw [h]; exact fr_setNd s n _
+
+theorem fr_finishTraverse (s : State) (n v : Nat) : Fr s (finishTraverse s n v) := fr_setNd s n _
+
+theorem fr_syncStates (g : Graph) (s : State) (n w : Nat) (r : Option (List String)) : Fr s (syncStates g s n w r).1 := by
+  unfold syncStates
+  dsimp only
+  split
+  · exact Fr.refl s
+  · split <;> exact ⟨rfl, rfl, rfl, rfl, rfl⟩
+
+theorem fr_reverseNode (g : Graph) (s : State) (n v : Nat) (s' : State) (evs : List Event)
+    (h : reverseNode g s n v = .ok (s', evs)) : Fr s s' := by
+  unfold reverseNode at h
+  by_cases hocc : isOccupied g s n v = true
+  · simp only [hocc, if_true, Except.ok.injEq, Prod.mk.injEq] at h
+    rw [← h.1]; exact Fr.refl s
+  · simp only [hocc, Bool.false_eq_true, if_false, ite_self] at h
+    cases hd : cleanDecision g (s.setNd n (fun d => { d with started := some v })) n v with
+    | error e => simp [hd] at h
+    | ok clean =>
+      simp only [hd, Except.ok.injEq, Prod.mk.injEq] at h
+      rw [← h.1]
+      generalize hsy : (if (clean && !(g.node n).sets.isEmpty) = true then
+          syncStates g (s.setNd n (fun d => { d with started := some v })) n v none
+        else (s.setNd n (fun d => { d with started := some v }), [])) = sy
+      have h2 : Fr (s.setNd n (fun d => { d with started := some v })) sy.1 := by
+        rw [← hsy]
+        split
+        · exact fr_syncStates g _ n v none
+        · exact Fr.refl _
+      exact (fr_setNd s n _).trans (h2.trans (fr_setNd _ n _))
+
+/-- what stays as it is in every `.cont` iteration -/
+structure Keep (s s' : State) : Prop where
+  workersLen : s'.workers.length = s.workers.length
+  regsLen : s'.regs.length = s.regs.length
+  hidden : s'.hidden = s.hidden
+  incompatible : s'.incompatible = s.incompatible
+  nodesLen : s'.nodes.length = s.nodes.length
+
+theorem Keep.refl (s : State) : Keep s s := ⟨rfl, rfl, rfl, rfl, rfl⟩
+
+theorem Keep.trans {s s1 s2 : State} (a : Keep s s1) (b : Keep s1 s2) : Keep s s2 :=
+  ⟨b.workersLen.trans a.workersLen, b.regsLen.trans a.regsLen, b.hidden.trans a.hidden,
+   b.incompatible.trans a.incompatible, b.nodesLen.trans a.nodesLen⟩
+
+theorem Fr.keep {s s' : State} (a : Fr s s') : Keep s s' :=
+  ⟨by rw [a.workers], by rw [a.regs], a.hidden, a.incompatible, a.nodesLen⟩
+
+theorem keep_setCr (s : State) (c : Nat) (f : ClassRegs → ClassRegs) : Keep s (s.setCr c f) :=
+  ⟨rfl, regs_length_setCr s c f, rfl, rfl, rfl⟩
+
+theorem keep_setWd (s : State) (w : Nat) (f : WorkerD → WorkerD) : Keep s (s.setWd w f) :=
+  ⟨by simp [State.setWd], rfl, rfl, rfl, rfl⟩
+
+theorem keep_dropChildren (g : Graph) (next w : Nat) (l : List (Nat × List String)) (s : State) :
+    Keep s (l.foldl (fun s (p, _) => dropChild g s p next w) s) := by
+  induction l generalizing s with
+  | nil => exact Keep.refl s
+  | cons a r ih => simp only [List.foldl_cons]; exact (keep_setCr s _ _).trans (ih _)
+
+theorem wd_dropChildren (g : Graph) (next w v : Nat) (l : List (Nat × List String)) (s : State) :
+    (l.foldl (fun s (p, _) => dropChild g s p next w) s).wd v = s.wd v := by
+  induction l generalizing s with
+  | nil => rfl
+  | cons a r ih => simp only [List.foldl_cons]; rw [ih]; rfl
+
 end I2N.Trav.Term
